@@ -150,9 +150,16 @@ func groupBody(name string, v int) string {
 	return ""
 }
 
-func rulesText(groups []string, v int) string {
+func rulesText(groups []string, v int, bundlePrefix *string) string {
 	var sb strings.Builder
-	sb.WriteString("package gorules\n\nimport \"github.com/quasilyte/go-ruleguard/dsl\"\n\n")
+	sb.WriteString("package gorules\n\nimport (\n\t\"github.com/quasilyte/go-ruleguard/dsl\"\n")
+	if bundlePrefix != nil {
+		sb.WriteString("\tc19b \"example.com/c19b\"\n")
+	}
+	sb.WriteString(")\n\n")
+	if bundlePrefix != nil {
+		fmt.Fprintf(&sb, "func init() {\n\tdsl.ImportRules(%q, c19b.Bundle)\n}\n\n", *bundlePrefix)
+	}
 	for _, g := range groups {
 		fmt.Fprintf(&sb, "func %s(m dsl.Matcher) {\n%s}\n\n", g, groupBody(g, v))
 	}
@@ -167,6 +174,8 @@ func pd1(x int) int          { return x }
 func pz1(x interface{})      {}
 func pz2(x, y interface{})   {}
 func pdel(args ...int)       {}
+func pbn1(x interface{})     {}
+func pbn2(x interface{})     {}
 
 type chain struct{}
 
@@ -190,6 +199,8 @@ func f(a, b int) int {
 	_ = a * b * 3
 	pdel()
 	pdel(1, b)
+	pbn1(a)
+	pbn2("two")
 	legacy(1).then(2)
 	legacy(a).then(b).then(5)
 	if a == a {
@@ -214,6 +225,7 @@ func h() bool {
 	pg2(pb1("q"), 2)
 	pz1("c")
 	pd1(4)
+	pbn2(pbn1)
 	legacy(pd1(2) * 3 * pd1(4)).then(0)
 	return "a" == "a"
 }
@@ -221,6 +233,16 @@ func h() bool {
 	"pc": {`package pc
 
 func nothing() {}
+`},
+	// generated code: a //line directive before the package clause makes every position of the file name a non-Go file
+	"pd": {`//line gen.y:10
+package pd
+` + decls + `
+func y(a int) int {
+	pa1(a)
+	pb1(a + 1)
+	return a * 2 * a
+}
 `},
 }
 
@@ -370,6 +392,11 @@ func nameList(rng *rand.Rand, groups []string, forEnable bool) string {
 		case 2:
 			// a near miss of one of the scenario's own groups
 			g := pick(rng, groups)
+			if k := strings.LastIndex(g, "/"); k >= 0 && rng.Intn(2) == 0 {
+				// a bundle group named without, or with another, prefix
+				name = pick(rng, []string{g[k+1:], "/" + g[k+1:], "core2/" + g[k+1:], g[:k]})
+				break
+			}
 			rs := []rune(g)
 			switch rng.Intn(6) {
 			case 0:
@@ -453,9 +480,26 @@ func main() {
 		for i := range fileGroups {
 			fileNames = append(fileNames, filepath.Join(dir, fmt.Sprintf("rules%d.go", i)))
 		}
+		// one scenario in three imports a rule bundle under some prefix: its groups are named prefix/name
+		var bundlePrefix *string
+		if rng.Intn(3) == 0 {
+			p := pick(rng, []string{"core", "core", "", "a.b", "x"})
+			bundlePrefix = &p
+			for _, bg := range []string{"bg1", "bg2"} {
+				if p == "" {
+					groups = append(groups, bg)
+				} else {
+					groups = append(groups, p+"/"+bg)
+				}
+			}
+		}
 		writeRules := func(v int) {
 			for i, fn := range fileNames {
-				txt := rulesText(fileGroups[i], v)
+				var bp *string
+				if i == 0 {
+					bp = bundlePrefix
+				}
+				txt := rulesText(fileGroups[i], v, bp)
 				if v == 0 && i == len(fileNames)-1 {
 					txt = "package gorules\n\nfunc broken(m dsl.Matcher) { m.Match(`f(` }\n"
 				}
